@@ -140,6 +140,11 @@ func PlanFor(prop, tier string) (*Plan, error) {
 		p.Custom = RunHooks
 		p.Rule = "exhaustive product: 21 (operation, pre-state) scenes covering every operation that fires a hook (both creations, cancel, the three bid kinds, modification, add / update allowed bidder, fixed and batch settlement through both batch branches) x 1..3 recording listeners x failing listener position (none, 0..n-1) x which of the hooks fired by the operation fails x registration through SetHooks(MultiFundraisingHooks) and through the module's InvokeSetHooks(map); oracle: exact call sequence (each listener once, none after the veto), arguments equal to the message / committed record / real transfers, announced record not yet in the store view the listener reads, veto => error wrapping the listener's and nothing committed at the transaction boundary (settlement: the block hook returns it); non-trivial = distinct (scene, listeners, failing position, failing hook, registration) cases, all of them executed"
 		p.Assume = []string{trustNote, "wiring through depinject inside app.New is not exercised (app.New accepts no extra providers): listeners are installed on a second real keeper over the application's own store", "I4: fees, reservations and the cancel refund moved before the hook are rolled back at the transaction boundary, which is what is checked"}
+	case "C14":
+		p.Level = "exploration"
+		p.Custom = RunOrder
+		p.Rule = "every `range` over a map and every maps.Keys call in x/fundraising/{keeper,types,module} is found by type-checking the working tree and rewritten (build-time -overlay, /repo untouched) to take its key order from a scheduler; for each history of the catalogue the canonical schedule (ascending keys everywhere) is run, then every schedule with at most `deviation_bound` ranges off the canonical order, each deviating range trying every permutation (<=4 keys: all 24); every schedule must give byte-identical ordered events (bank coin_spent/coin_received/transfer + module events) per op, module store dump and balances; the canonical digest is also compared across worker processes; non-trivial = schedules of histories that have at least one choice point"
+		p.Assume = []string{trustNote, "containers other than Go maps inside the SDK are out of scope", "no goroutines, rand or wall-clock reads in the module (checked by reading; time.Now only feeds telemetry)"}
 	case "C07":
 		p.Scenarios = []*Scenario{S3(tier, false), S1a(tier, true), S2a(tier, false)}
 		if !quick {
